@@ -219,19 +219,19 @@ type env struct {
 	gen     func(e *env, w int, ev evT, ph int) cmdT
 
 	// app mode
-	mu       sync.Mutex
-	curTree  *node
-	curTree2 *node // drawn from the second layout of a tick on (nil: curTree again)
-	frameDraws int // layouts since the last gated Draw (= in the current tick)
-	draws    int
-	gateDraw bool          // the next Draw of the root blocks
-	drawn    chan struct{} // signalled by a gated Draw
-	goDraw   chan struct{}
-	syncKey  int // the key the app goroutine must stop at; 0 = none
-	reached  chan struct{}
-	release  chan struct{}
-	quitKey  int
-	quitSeen bool // a QuitCmd was returned by some handler
+	mu         sync.Mutex
+	curTree    *node
+	curTree2   *node // drawn from the second layout of a tick on (nil: curTree again)
+	frameDraws int   // layouts since the last gated Draw (= in the current tick)
+	draws      int
+	gateDraw   bool          // the next Draw of the root blocks
+	drawn      chan struct{} // signalled by a gated Draw
+	goDraw     chan struct{}
+	syncKey    int // the key the app goroutine must stop at; 0 = none
+	reached    chan struct{}
+	release    chan struct{}
+	quitKey    int
+	quitSeen   bool // a QuitCmd was returned by some handler
 }
 
 type plainW struct {
@@ -897,7 +897,7 @@ func genDirect(r *rand.Rand, p dplan) *dcase {
 		add(inputT{K: "render", T: cur})
 	}
 	lastFocus := root
-	prev := cur // the frame before the last change of the root surface's size
+	prev := cur       // the frame before the last change of the root surface's size
 	var lastM *[2]int // where the mouse handler saw the pointer last
 	for len(c.Inputs) < p.steps {
 		var i inputT
